@@ -91,7 +91,11 @@ func ruleDateLayouts(c *core.Ctx, rule string) {
 	g := buildFlow(c)
 	n := 0
 	for _, fn := range c.P.Funcs {
+		dead := core.DeadBlocks(fn) // behind a diagnostics hook that nothing ever sets
 		for _, b := range fn.Blocks {
+			if dead[b] {
+				continue
+			}
 			for _, in := range b.Instrs {
 				call, ok := in.(*ssa.Call)
 				if !ok || core.Callee(&call.Call) == nil {
@@ -128,7 +132,15 @@ func ruleDateLayouts(c *core.Ctx, rule string) {
 					}
 					continue
 				}
-				if hasSource(srcs, "flag:String(date-format)") && hasSource(srcs, "ext:config-file") {
+				other := ""
+				for _, sc := range srcs {
+					if n := string(sc.Node); strings.HasPrefix(n, "flag:") && !strings.Contains(n, "(date-format)") {
+						other = n
+					}
+				}
+				if other != "" {
+					c.Violate(rule, fname, disc, pos, "the layout used here is also fed by "+other+": a second setting decides how days are written (or read) here, so with only --date-format given the two sides no longer use the same layout and a printed log cannot be read back with the same options", nil)
+				} else if hasSource(srcs, "flag:String(date-format)") && hasSource(srcs, "ext:config-file") {
 					c.Discharge(rule, fname, disc, pos, "layout derives from --date-format / HR_DATE_FORMAT, the configuration file and the documented default")
 				} else {
 					c.Violate(rule, fname, disc, pos, "the layout's sources are {"+describeSources(srcs)+"}; expected the date-format flag and the configuration file among them", nil)
